@@ -241,7 +241,9 @@ def replay(subcheck, case):
     tu = M.freshen(tu)
     rend = M.Renderer("min")
     rend.unit(tu)
-    pre = [T(x) for x in gen.PRELUDE.split()]
+    # (the stored text is re-tokenised by the reference tokenizer: 'T0;' of the
+    # prelude is two tokens there)
+    pre = [T(x) for x in pp_tokens(gen.PRELUDE)]
     toks = pre + [T(t.s, t.line) for t in rend.toks]
     if subcheck == "error-location":
         out = parse_outcome(text, "f.c", ("f.c", "g.h", "dir/h.h", "a b.c"))
@@ -264,8 +266,9 @@ def replay(subcheck, case):
     laid.extra = {}
     laid.text = text
     if [s for _, s in pos] != [t.s if not t.line else "pragma" for t in toks]:
-        # the stored text does not tokenise to the model's tokens (should not happen)
-        return
+        from ..runner import HarnessError
+
+        raise HarnessError("C11 replay: the stored text does not tokenise to the model's tokens")
     out = parse_outcome(text, "f.c", ("f.c", "g.h", "dir/h.h", "a b.c"))
     if out[0] != "ast":
         return
